@@ -14,15 +14,3 @@ Proof. intros Ht Hp. unfold rel_stm. expose_stm. interval with (i_taylor t, i_bi
 Lemma S56 t p : 650 <= t <= 700 -> 100000 <= p <= 1000000 -> rel_stm t p <= 1 / 100.
 Proof. intros Ht Hp. unfold rel_stm. expose_stm. interval with (i_taylor t, i_bisect p, i_depth 14, i_degree 5). Qed.
 
-Lemma S8 t p : 200 <= t <= 250 -> 12500 <= p <= 25000 -> rel_stm t p <= 1 / 100.
-Proof. intros Ht Hp. unfold rel_stm. expose_stm. interval with (i_bisect t, i_bisect p, i_depth 14). Qed.
-
-Lemma S28 t p : 400 <= t <= 450 -> 12500 <= p <= 25000 -> rel_stm t p <= 1 / 100.
-Proof. intros Ht Hp. unfold rel_stm. expose_stm. interval with (i_bisect t, i_bisect p, i_depth 14). Qed.
-
-Lemma S48 t p : 590 <= t <= 650 -> 12500 <= p <= 25000 -> rel_stm t p <= 1 / 100.
-Proof. intros Ht Hp. unfold rel_stm. expose_stm. interval with (i_bisect t, i_bisect p, i_depth 14). Qed.
-
-Lemma S66 t p : 750 <= t <= 800 -> 25000 <= p <= 50000 -> rel_stm t p <= 1 / 100.
-Proof. intros Ht Hp. unfold rel_stm. expose_stm. interval with (i_bisect t, i_bisect p, i_depth 14). Qed.
-
